@@ -588,13 +588,15 @@ def extract_model_operations(in_model):
       # be the number of channels
       ishape = np.array([i for i in input_shape if i is not None])
       assert sum(ishape > 1) == 1, "Tensor shape has multiple >1 size dims"
-      size_i = np.max(ishape)
+      # the kernel contracts the last axis, whichever dimension is the large one
+      size_i = ishape[-1]
 
       oshape = np.array([i for i in output_shape if i is not None])
       assert sum(oshape > 1) == 1, "Tensor shape has multiple >1 size dims"
-      size_o = np.max(oshape)
+      size_o = oshape[-1]
 
-      number_of_operations = int(size_i * size_o)
+      # ... and is applied once per position of the remaining axes
+      number_of_operations = int(np.prod(oshape[:-1]) * size_i * size_o)
 
       number_of_weights = size_i * size_o
       number_of_bias = 0
